@@ -231,8 +231,7 @@ def _try(case, start, binary):
         return None, passed, {"err": 13}
     obs = {"tree": _observe(res, binary), "top": int(res.depth)}
     call = case["call"]
-    if (call["fn"] == "prune" and case.get("start") and not binary and call["max_depth"] == 0
-            and call["paths"] not in ("", [])):
+    if call["fn"] == "prune" and case.get("start") and not binary:
         obs["whole"] = _observe(res.root, binary)     # the whole copy the returned node is attached to
     return res, passed, obs
 
@@ -952,19 +951,21 @@ def partial_clauses(prop):
         "for sep '->' (C14_multichar_malformed_path_refuted; not generated)",
         "a prune path that addresses several nodes is answered by SearchError in model and code; the predicate "
         "makes no claim there (documented precondition: path names unique); model and code are still compared",
-        "inner start node: predicate and theorems read 'the tree = the start node's subtree, depths counted from "
-        "the start node' (C14_model_satisfies_prop_inner(_multi), C14_prune_kept_inner).  What is above the "
-        "returned node is proved of the model (C14_inner_result_in_whole_copy: the whole copy is `keep` of the "
-        "whole tree, the returned node stays attached) and compared with result.root for path pruning without "
-        "depth limit; with a depth limit only the returned node's subtree and its depth attribute are observed; "
-        "the predicate does not require prune_tree's result to be a root",
-        "BinaryNode trees: proved for calls on the root - addressing (C14_binary_addressing, any start node), "
-        "kept real nodes incl. depth limit (C14_binary_prune_kept_spec), slots (C14_binary_slots_preserved, "
-        "C14_binary_depth_cut_slots), depth cut = structural cut (C14_binary_depth_cut, C14_binary_prune_depth), "
-        "missing path (C14_binary_missing_path_error).  Not proved as one theorem: prop_C14_at true (the "
-        "hole-labelled expected list) and BinaryNode trees called on an inner node / get_subtree on BinaryNode "
-        "trees - these are covered by the correspondence run and the predicate evaluation only.  The theorems "
-        "assume the encoding invariant `holes_leaf` (nothing hangs below an empty slot)",
+        "umbrella: C14_umbrella proves prop_C14_at (and the 'new root' clause) of the model for every case of "
+        "the modelled domain - Node and BinaryNode trees, root and inner start nodes, prune_tree and get_subtree, "
+        "all flags and depth limits, separators of any positive length - under `case_ok`: start position exists, "
+        "paths satisfy paths_ok/strip_ok, BinaryNode encoding invariant wf2 (empty slot = HOLE, real node = two "
+        "slots; what the harness emits).  Not in the umbrella: the print_tree / hyield_tree observation "
+        "(prop_C14_print, harness side conditions) - these are evaluated on the implementation's output only",
+        "inner start node: the reading is 'the tree = the start node's subtree, depths counted from the start "
+        "node'.  What is above the returned node of prune_tree is proved of the derived whole-copy description "
+        "(C14_inner_whole_copy_depth, C14_inner_whole_copy_above_below, C14_inner_result_in_whole_copy) and "
+        "compared with result.root on every inner-node prune_tree call on Node trees (any paths, any depth "
+        "limit); for BinaryNode trees result.root is not observed.  The predicate does not require prune_tree's "
+        "result to be a root (it is not: it stays attached to the copied ancestors)",
+        "BinaryNode trees: besides the umbrella - C14_binary_observation (markers), C14_binary_depth_cut(_slots, "
+        "_real, _is_surgery), C14_binary_slots_preserved, C14_binary_addressing, C14_binary_prune_kept_spec, "
+        "C14_binary_missing_path_error, C14_binary_get_subtree, C14_binary_inner_prune",
         "max_depth is a natural number (negative ints behave as 'no limit' in the code and are not generated)",
         "accepted blind spots of the correspondence: (a) nested targets skipped; empty separators (Unmodelled) "
         "never generated; (b) for a missing path the predicate accepts any exception class and for an ambiguous "
